@@ -42,12 +42,26 @@ def main():
                     if f == 'RUN.txt':
                         continue
                     rel = os.path.relpath(os.path.join(root, f), demo)
-                    dst = os.path.join(wt, DEMO_PREFIX, rel)
+                    if f == 'go.mod.example':
+                        continue
+                    dst = os.path.join(harness, 'demo%s' % k, rel) if harness else os.path.join(wt, DEMO_PREFIX, rel)
                     os.makedirs(os.path.dirname(dst), exist_ok=True)
                     shutil.copy(os.path.join(root, f), dst)
         global DEMO_PREFIX
         DEMO_PREFIX = os.environ.get('SEED_DEMO_PREFIX', 'seeddemo%s' % k)
         democmd = os.environ.get('SEED_DEMO_CMD', 'go run ./seeddemo%s' % k)
+        harness = None
+        if os.path.exists(os.path.join(demo, 'go.mod.example')) or os.environ.get('SEED_HARNESS'):
+            # demonstration lives in a scratch module that replaces gonum hdf5 by the pure-Go stand-in
+            harness = wt + '.harness'
+            shutil.rmtree(harness, ignore_errors=True)
+            os.makedirs(harness)
+            open(os.path.join(harness, 'go.mod'), 'w').write(
+                'module seedharness\n\ngo 1.12\n\nrequire github.com/flowmatters/openwater-core v0.0.0\n'
+                'require gonum.org/v1/hdf5 v0.0.0-20210714002203-8c5d23bc6946\n\n'
+                'replace github.com/flowmatters/openwater-core => %s\nreplace gonum.org/v1/hdf5 => /verif/harness/fakehdf5\n' % wt)
+            shutil.copy(os.path.join(wt, 'go.sum'), os.path.join(harness, 'go.sum'))
+            democmd = os.environ.get('SEED_DEMO_CMD', 'go run ./demo%s' % k)
         rc, out = sh('git apply %s' % patch, cwd=wt)
         meta['patch_applies'] = rc == 0
         assert rc == 0, out
@@ -57,15 +71,16 @@ def main():
         meta['baseline_tests_pass'] = rct == 0 and 'FAIL' not in outt
         meta['baseline_tests_tail'] = outt[-400:]
         place()
-        rc1, out1 = sh(democmd, cwd=wt)
+        rc1, out1 = sh(democmd, cwd=harness or wt)
         meta['demo_with_change'] = {'cmd': democmd, 'exit': rc1, 'tail': out1[-600:]}
         rc, out = sh('git apply -R %s' % patch, cwd=wt)
         assert rc == 0, out
-        rc0, out0 = sh(democmd, cwd=wt)
+        rc0, out0 = sh(democmd, cwd=harness or wt)
         meta['demo_without_change'] = {'cmd': democmd, 'exit': rc0, 'tail': out0[-600:]}
         meta['confirmed'] = bool(meta['builds'] and meta['baseline_tests_pass'] and rc0 == 0 and rc1 != 0)
     finally:
         sh('git -C /repo worktree remove --force %s' % wt)
+        shutil.rmtree(wt + '.harness', ignore_errors=True)
     # run the checks against /repo with the change applied, then undo
     results = {}
     rc, out = sh('git -C /repo apply %s' % patch)
